@@ -66,7 +66,7 @@ async def check_pool(ctx, case):
     ctx.count("pool_cases")
     ctx.count("parent:" + parent)
     status, offered, flag, hint = expected_for(pool, asg, parent)
-    kind_of_input = "absent" if pool["input"] is None else ("empty" if pool["input"] == "" else ("offered" if pool["input"] in offered else ("pool-member-not-offered" if any(e["q"] == pool["input"] for e in pool["entries"]) else "foreign")))
+    kind_of_input = "absent" if pool["input"] is None else ("empty" if pool["input"] == "" else ("offered" if pool["input"] in offered else ("pool-member-not-offered" if any(e["q"] == pool["input"] for e in pool["entries"]) else ("fragment-of-offered" if pool["input"] in ", ".join(offered) else "foreign"))))
     ctx.count("input:" + kind_of_input)
     ctx.count("offered_none" if not offered and parent != "IS_FORBIDDEN" else "offered_some")
     world = E.World("c17", rc=asg, fc={k: True for k in POOLS.fc})
@@ -145,7 +145,12 @@ async def run(ctx):
             not_offered = [e["q"] for e in pool["entries"] if e["q"] not in offered]
             if not_offered:
                 inputs.append(rng.choice(not_offered))
-            for inp in (inputs if not ctx.quick else rng.sample(inputs, 3)):
+            if offered:
+                # values that are no qualifier but occur INSIDE the (joined) list of offered qualifiers
+                inputs += [offered[0][:-1], offered[-1][1:], offered[0][-2:], ", ", ","]
+                if len(offered) >= 2:
+                    inputs.append(offered[0] + ", " + offered[1])
+            for inp in (inputs if not ctx.quick else rng.sample(inputs, 4)):
                 for parent in ("IS_REQUIRED", "IS_OPTIONAL", "IS_FORBIDDEN"):
                     if parent == "IS_FORBIDDEN" and rng.random() < 0.6:
                         continue
